@@ -783,6 +783,10 @@ def c16(ctx):
                 def vis(o):
                     return {d[1] for d, _ in kind_deep_(fn, o) if d[0] == "call" and ((fn.term(d[1])["callee"].get("name") or "").startswith("visit_") or callee_def(fn.term(d[1])) == "analysis::visit::combine_all")}
                 left, right = vis(t["args"][0]), vis(t["args"][1])
+                # (flow-insensitive origins of a loop-carried accumulator include later results: only what can have run before this
+                # combine counts)
+                left = {a for a in left if bi in fn.reachable_from_succs(a)}
+                right = {b for b in right if bi in fn.reachable_from_succs(b)}
                 for a in left:
                     for b in right:
                         if a != b and a in fn.reachable_from_succs(b) and b not in fn.reachable_from_succs(a):
